@@ -133,7 +133,7 @@ def route (b : Builder) (all : List Gw) (e : Ep) : Route :=
   let forceGateway := b.proxyNetwork == "" && e.net != "" && !gws.isEmpty
   if !forceGateway && (sameOrEmpty e.net b.proxyNetwork || gws.isEmpty) then
     let le := lbOf b e
-    if !le.pipe && le.host != "" then .direct { le with weight := w } else .dropped
+    if le.pipe || le.host != "" then .direct { le with weight := w } else .dropped
   else if reach.isEmpty then .dropped
   else if !mtlsOn b e then .dropped
   else .via reach (w / reach.length)
